@@ -9,7 +9,7 @@ CONSTANTS Paths = {1}
           EmitOn = TRUE
           Sim = FALSE
 INIT Init
-NEXT Next
+NEXT NextAll
 INVARIANT StaleHasCause
 INVARIANT ModeRespected
 INVARIANT TypeOk
